@@ -453,6 +453,9 @@ class UTPM(Ring, RawAlgorithmsMixIn):
         # take the logarithm of the base in (at least) double precision: numpy.log of an
         # int8 or float16 scalar would be computed in half precision
         r = numpy.asarray(r)
+        if r.dtype == object and r.ndim == 0 and isinstance(r[()], int):
+            # a Python int beyond 64 bits
+            r = numpy.asarray(float(r[()]))
         logr = numpy.log(r.astype(numpy.result_type(r.dtype, numpy.float64)))
         if logr.ndim == 0:
             logr = logr[()]
@@ -505,6 +508,9 @@ class UTPM(Ring, RawAlgorithmsMixIn):
 
     def __rtruediv__(self, rhs):
         rhs = numpy.asarray(rhs)
+        if rhs.dtype == object and rhs.ndim == 0 and isinstance(rhs[()], int):
+            # a Python int beyond 64 bits
+            rhs = numpy.asarray(float(rhs[()]))
         dtype = numpy.promote_types(self.data.dtype, rhs.dtype)
         shp = numpy.broadcast_shapes(self.data.shape[2:], rhs.shape)
         tmp = UTPM(numpy.zeros(self.data.shape[:2] + shp, dtype=dtype))
